@@ -16,6 +16,7 @@ static GLOBAL: util::CountingAlloc = util::CountingAlloc;
 
 mod queue;
 mod regleak;
+mod tlsref;
 mod rc;
 mod sched;
 mod traits;
@@ -223,6 +224,10 @@ fn main() {
         "api" => {
             let (checks, _p, fails) = api::run(&out, seed, thorough);
             println!("api: property_checks={} property_failures={}", checks, fails);
+        }
+        "tls-ref" => {
+            let (checks, _p, fails) = tlsref::run(&out, seed, thorough);
+            println!("tls-ref: property_checks={} property_failures={}", checks, fails);
         }
         "c03" => {
             let (checks, _p, fails) = c03::run(&out, seed, thorough);
